@@ -477,6 +477,14 @@ impl Connection {
                     header.sequence_id, header.fragment_id, header.fragment_id
                 );
 
+                if remaining.len() < header.num_atom_cache_refs as usize {
+                    return Err(Error::Protocol(format!(
+                        "fragment header announces {} bytes of atom cache data, {} bytes follow",
+                        header.num_atom_cache_refs,
+                        remaining.len()
+                    )));
+                }
+
                 let atom_cache_data = if header.num_atom_cache_refs > 0 {
                     Some(remaining[..header.num_atom_cache_refs as usize].to_vec())
                 } else {
